@@ -26,6 +26,9 @@ CONFIGS = [
     (2, 2, [], [], True),
     (2, 2, [(2, 2)], [(2, 1)], True),
     (2, 2, [(1, 1)], [], False, 9999),       # a connection that has served 9999 requests before
+    # refused calls (params given as a str: refused before an id is generated) and a transport that drops the
+    # connection once for a request (the request was issued with its id; nothing may be sent again on its own)
+    (2, 2, [], [], False, 0, [(1, 2), (2, 1)], [(1, 1)]),
 ]
 VERBS = ('get', 'post', 'put', 'delete', 'patch')
 
@@ -72,7 +75,7 @@ class _Resp:
 
 def _mc_cfg(nt, reqs, start=0):
     return ('SPECIFICATION Spec\nCHECK_DEADLOCK FALSE\nCONSTANTS\n  Threads = {%s}\n  Reqs = %d\n'
-            '  OwnChoices <- OwnChoicesStd\n  FailChoices <- FailChoicesStd\n  Start = %d\nINVARIANT Unique\nINVARIANT GapFree\nINVARIANT CounterCounts\n'
+            '  OwnChoices <- OwnChoicesStd\n  FailChoices <- FailChoicesStd\n  RejectChoices <- RejectChoicesStd\n  Start = %d\nINVARIANT Unique\nINVARIANT GapFree\nINVARIANT CounterCounts\n'
             'INVARIANT MutualExclusion\nPROPERTY AllDone\n' % (', '.join(str(i + 1) for i in range(nt)), reqs, start))
 
 
@@ -126,8 +129,10 @@ def run(ctx):
         for cfg in CONFIGS:
             nt, reqs, own, fail, shared = cfg[:5]
             start = cfg[5] if len(cfg) > 5 else 0
+            rej = cfg[6] if len(cfg) > 6 else []
+            drop = cfg[7] if len(cfg) > 7 else []
 
-            def make_bodies(nt=nt, reqs=reqs, own=own, fail=fail, shared=shared, start=start):
+            def make_bodies(nt=nt, reqs=reqs, own=own, fail=fail, shared=shared, start=start, rej=rej, drop=drop):
                 base = conn_http.HttpConn('http://h:1')
                 impl = base.conn_impl
                 holder['impl'] = impl
@@ -149,8 +154,15 @@ def run(ctx):
                             m = _ID.match(str(rid))
                             v = int(m.group(3)) if (m and m.group(1) == part and int(m.group(2)) == int(m.group(3)) % 10000) else -3
                         sch.trace.append({'t': tid, 'k': 'send', 'v': v})
+                        key = (tid, cur.get(tid))
+                        if key in dropped:
+                            dropped.discard(key)          # the transport loses the connection once for this request
+                            import http.client
+                            raise http.client.RemoteDisconnected('Remote end closed connection without response')
                         return _Resp()
                 impl.opener = Op()
+                cur = {}
+                dropped = set(tuple(x) for x in drop)
                 conns = [base, conn_http.BAuthConn(base, 'u', 'p'), conn_http.HttpConn(base)]
                 import urllib.request
                 bodies = []
@@ -159,8 +171,19 @@ def run(ctx):
                     def body(t=t):
                         c = conns[(t - 1) % len(conns)]
                         for r in range(1, reqs + 1):
+                            cur[t] = r
                             verb = getattr(c, VERBS[(t + r) % 5])
-                            if (t, r) in [tuple(x) for x in own]:
+                            if (t, r) in [tuple(x) for x in rej]:
+                                try:
+                                    verb('/x', params='limit=10&offset=20')       # a str is not a mapping: TypeError
+                                except TypeError:
+                                    sch.trace.append({'t': t, 'k': 'reject', 'v': 0})
+                            elif (t, r) in [tuple(x) for x in drop]:
+                                try:
+                                    verb('/x', headers=caller_headers)
+                                except Exception:
+                                    pass
+                            elif (t, r) in [tuple(x) for x in own]:
                                 _own_request(conn_http, base, c, VERBS[(t + r) % 5], t, r)
                             elif (t, r) in [tuple(x) for x in fail]:
                                 try:
@@ -173,7 +196,7 @@ def run(ctx):
 
                 def finish(trace, chosen):
                     return {'threads': nt, 'reqs': reqs, 'own': [list(x) for x in own], 'fail': [list(x) for x in fail],
-                            'shared_headers': shared, 'start': start,
+                            'shared_headers': shared, 'start': start, 'rej': [list(x) for x in rej], 'drop': [list(x) for x in drop],
                             'ev': [{'t': e['t'], 'k': e['k'], 'v': (e['v'] if e['v'] is not None else -9)}
                                    for e in trace], 'schedule': chosen}
                 return bodies, finish, None
@@ -193,13 +216,13 @@ def run(ctx):
     nviol = 0
     for (nt, reqs), execs in groups.items():
         # negative self-tests (synthetic): duplicate id; gap
-        dup = {'threads': nt, 'reqs': reqs, 'own': [], 'fail': [], 'start': 0, 'ev': [{'t': 1 + (i % nt), 'k': 'send', 'v': 0} for i in range(nt * reqs)], 'schedule': []}
-        gap = {'threads': nt, 'reqs': reqs, 'own': [], 'fail': [], 'start': 0, 'ev': [{'t': 1 + (i % nt), 'k': 'send', 'v': i + 1} for i in range(nt * reqs)], 'schedule': []}
+        dup = {'threads': nt, 'reqs': reqs, 'own': [], 'fail': [], 'start': 0, 'rej': [], 'ev': [{'t': 1 + (i % nt), 'k': 'send', 'v': 0} for i in range(nt * reqs)], 'schedule': []}
+        gap = {'threads': nt, 'reqs': reqs, 'own': [], 'fail': [], 'start': 0, 'rej': [], 'ev': [{'t': 1 + (i % nt), 'k': 'send', 'v': i + 1} for i in range(nt * reqs)], 'schedule': []}
         allc = execs + [dup, gap]
         path = os.path.join(ctx.tmp, 'c16_%d_%d.ndjson' % (nt, reqs))
         with open(path, 'w') as f:
             for c in allc:
-                f.write(json.dumps({k: c[k] for k in ('threads', 'reqs', 'own', 'fail', 'start', 'ev')}) + '\n')
+                f.write(json.dumps({k: c[k] for k in ('threads', 'reqs', 'own', 'fail', 'start', 'rej', 'ev')}) + '\n')
         r = ctx.tlc('http/ReqIdJudge.tla', 'SPECIFICATION Spec\nCHECK_DEADLOCK FALSE\nCONSTANTS\n  NT = %d\n  Reqs = %d\n' % (nt, reqs),
                     env={'CASES': path}, workers=16, timeout=3600)
         verd = {}
@@ -218,7 +241,7 @@ def run(ctx):
                 nviol += 1
                 sends = [(e['t'], e['v']) for e in c['ev'] if e['k'] == 'send']
                 ctx.violation({'threads': nt, 'reqs': reqs, 'own': c['own'], 'fail': c['fail'],
-                               'shared_headers': c.get('shared_headers', False), 'start': c.get('start', 0), 'schedule': c['schedule']},
+                               'shared_headers': c.get('shared_headers', False), 'start': c.get('start', 0), 'rej': c.get('rej', []), 'drop': c.get('drop', []), 'schedule': c['schedule']},
                               'schedule %s of %d threads x %d requests: ids that reached the opener (thread, number; -1 = '
                               'caller id unchanged, -2 = caller id altered/consumed, -3 = malformed): %s' % (
                                   c['schedule'], nt, reqs, sends))
@@ -258,16 +281,36 @@ def replay(ctx, case):
                 h = {k.lower(): v for k, v in request.header_items()}
                 seen.append('mine-' if 'x-mine' in h and str(h.get('x-request-id')) == {'int0': '0', 'empty': ''}.get(h['x-mine'], h['x-mine'])
                             else ('altered-' if 'x-mine' in h else h.get('x-request-id')))
+                key = (sch._me(), cur.get(sch._me()))
+                if key in dropped:
+                    dropped.discard(key)
+                    import http.client
+                    raise http.client.RemoteDisconnected('Remote end closed connection without response')
                 return _Resp()
         impl.opener = Op()
         conns = [base, conn_http.BAuthConn(base, 'u', 'p'), conn_http.HttpConn(base)]
         bodies = []
+        cur = {}
+        rej = [tuple(x) for x in case.get('rej', [])]
+        drop = [tuple(x) for x in case.get('drop', [])]
+        dropped = set(drop)
         for t in range(1, nt + 1):
             def body(t=t):
                 c = conns[(t - 1) % len(conns)]
                 for r in range(1, reqs + 1):
+                    cur[t] = r
                     verb = getattr(c, VERBS[(t + r) % 5])
-                    if (t, r) in own:
+                    if (t, r) in rej:
+                        try:
+                            verb('/x', params='limit=10&offset=20')
+                        except TypeError:
+                            pass
+                    elif (t, r) in drop:
+                        try:
+                            verb('/x', headers=caller_headers)
+                        except Exception:
+                            pass
+                    elif (t, r) in own:
                         _own_request(conn_http, base, c, VERBS[(t + r) % 5], t, r)
                     elif (t, r) in fail:
                         try:
@@ -287,7 +330,8 @@ def replay(ctx, case):
     nums = sorted(int(str(s)[-12:]) for s in gen)
     mine = [s for s in seen if s and str(s).startswith('mine-')]
     nf = len(fail)
-    if (len(set(nums)) != len(nums) or (nums and (nums[-1] > start + len(gen) + nf - 1 or nums[0] < start)) or len(gen) != nt * reqs - len(own) - nf
+    nrej = len(case.get('rej', []))
+    if (len(set(nums)) != len(nums) or (nums and (nums[-1] > start + len(gen) + nf - 1 or nums[0] < start)) or len(gen) != nt * reqs - len(own) - nf - nrej
             or len(mine) != len(own)):
         return 'ids %s' % seen
     return None
